@@ -107,6 +107,7 @@ const (
 	KLeak          Kind = "leak"
 	KAnomaly       Kind = "anomaly"
 	KHang          Kind = "hang"
+	KNote          Kind = "note"
 )
 
 type InvRef struct {
@@ -150,13 +151,16 @@ type Record struct {
 // ---------------------------------------------------------------- the lab
 
 type hookState struct {
-	spec  HookSpec
-	invs  int
-	task  *task.Task
-	tname string // trigger moment name
-	tw    int
-	aname string
-	aw    int
+	spec HookSpec
+	invs int
+	// scriptedTimeouts: invocations whose script lets the environment's timer expire
+	// (each makes the environment log exactly one "hook response timed out")
+	scriptedTimeouts int
+	task             *task.Task
+	tname            string // trigger moment name
+	tw               int
+	aname            string
+	aw               int
 }
 
 type gate struct {
@@ -411,6 +415,9 @@ func (l *Lab) hookBegin(name string, r Record) (inv int, beh Behaviour, g chan s
 	r.HookKind = hs.spec.Kind
 	r.Gated = gated
 	l.addLocked(r)
+	if hs.spec.Kind == Task && (beh == TaskTimeout || beh == TaskLateReport) {
+		hs.scriptedTimeouts++
+	}
 	// A call writes this record from its own goroutine, possibly long after the FSM
 	// goroutine launched it. The lab waits after every occurrence until all launched
 	// calls have got here (settle), but should one still arrive after the next
@@ -606,9 +613,7 @@ func (l *Lab) deliver(hs *hookState, inv int, beh Behaviour, gt chan struct{}, c
 			break
 		}
 		if !exists {
-			if beh != TaskLateReport {
-				l.anomaly(fmt.Sprintf("collector goroutine of hook task %s gone before its termination was delivered", hs.spec.Name))
-			}
+			l.collectorGone(hs, inv, beh)
 			return
 		}
 		if time.Now().After(deadline) {
@@ -657,9 +662,7 @@ func (l *Lab) deliver(hs *hookState, inv int, beh Behaviour, gt chan struct{}, c
 			}
 		}
 		if !exists {
-			if beh != TaskLateReport { // a late report to nobody is simply dropped, as NotifyEvent would
-				l.anomaly(fmt.Sprintf("collector goroutine of hook task %s gone before its termination was taken", hs.spec.Name))
-			}
+			l.collectorGone(hs, inv, beh)
 			return
 		}
 		if time.Now().After(deadline) {
@@ -668,6 +671,56 @@ func (l *Lab) deliver(hs *hookState, inv int, beh Behaviour, gt chan struct{}, c
 		}
 		time.Sleep(l.PollInterval)
 	}
+}
+
+// collectorGone: the hook phase ended before the lab had reported the termination of
+// this hook task. Either the environment's own timer for it expired first (the lab
+// was too slow for a short timeout: see SpuriousTimeouts), or the environment
+// finished the phase without this task's result - which is for the oracle to judge.
+// A termination reported to nobody is dropped, as Environment.NotifyEvent would.
+func (l *Lab) collectorGone(hs *hookState, inv int, beh Behaviour) {
+	if beh == TaskLateReport {
+		return
+	}
+	l.add(Record{Kind: KNote, Hook: hs.spec.Name, Inv: inv, Msg: "hook phase over before the termination of this hook task was reported"})
+}
+
+// SpuriousTimeouts counts timeouts of hook tasks which the environment accounted
+// (its log says so) although no script asked for one: the lab was slower than a
+// short hook timeout. Monitors do not judge such a case.
+func (l *Lab) SpuriousTimeouts() int {
+	l.mu.Lock()
+	defer l.mu.Unlock()
+	n := 0
+	for _, hs := range l.hooks {
+		if hs.task != nil {
+			if d := l.W.timeoutsSeen(hs.task.GetTaskId()) - hs.scriptedTimeouts; d > 0 {
+				n += d
+			}
+		}
+	}
+	return n
+}
+
+// LateNotify reports, through the real Environment.NotifyEvent, a successful
+// termination (exit 0) of a hook task - to be used between transitions, when no
+// hook phase is running: the report of an earlier run that comes too late.
+func (l *Lab) LateNotify(hook string) {
+	l.mu.Lock()
+	hs := l.hooks[hook]
+	l.mu.Unlock()
+	if hs == nil || hs.task == nil {
+		return
+	}
+	ev := event.NewDeviceEvent(event.DeviceEventOrigin{
+		AgentId:    mesos.AgentID{Value: hs.task.GetAgentId()},
+		ExecutorId: mesos.ExecutorID{Value: hs.task.GetExecutorId()},
+		TaskId:     mesos.TaskID{Value: hs.task.GetTaskId()},
+	}, occpb.DeviceEventType_BASIC_TASK_TERMINATED).(*event.BasicTaskTerminated)
+	ev.VoluntaryTermination = true
+	ev.FinalMesosState = mesos.TASK_FINISHED
+	l.add(Record{Kind: KNote, Hook: hook, Msg: "late termination report (exit 0) through NotifyEvent, no hook phase running"})
+	l.Env.NotifyEvent(ev)
 }
 
 // incomingEvents returns the environment's (unexported) device event channel,
